@@ -167,7 +167,7 @@ class Main(Part):
             "and the output is non-empty.")
 
     def budget(self, tier):
-        return {"quick": dict(examples=250, shards=6, seconds=80),
+        return {"quick": dict(examples=330, shards=7, seconds=100),
                 "thorough": dict(examples=2500, shards=16, seconds=600)}[tier]
 
     def strategy(self, tier):
